@@ -68,6 +68,17 @@ CHECKS["C08"] = {
     ],
 }
 
+CHECKS["C12"] = {
+    "pkg": "c12",
+    "level": "exploration",
+    "technique": "stateful property-based testing (rapid state machine) of the mock store against an independent reference MVCC model, with state-dump comparison after every command",
+    "level_text": "Thousands of random command sequences per run over <=4 keys and <=4 transactions with all relative timestamp orders; after every command the answer class/values and the complete per-key MVCC state (plus hidden lock fields through a probe) are compared with the reference model; idempotence, scan=gets, GC read preservation and the three 'reference is TiKV' clauses are asserted directly. Sampling, not proof; the exhaustive small-depth enumeration of the design is replaced by high-volume sampling of short sequences.",
+    "level_note": "Trusted: the ~600-line reference model (harness/mvccmodel, contract in DESIGN.md Appendix A); where the statement is silent (error precedence when two errors apply, existence assertion over Lock records, deadlock vs locked) the model accepts either / copies the mock.",
+    "tests": [
+        {"name": "TestMockVsModel", "quick": 3000, "thorough": 30000, "shards": 16},
+    ],
+}
+
 # properties without a registered check, with the reason (kept current by hand)
 NOT_CLAIMED = {}
 
